@@ -55,22 +55,16 @@ def run(ck):
                 else:
                     ck.check(None if g2 is None else (False if g2.syms() != w2.syms() else None), "C09.R2", inst + ":second replica", swapf.site(),
                              "after swap the second replica is %r; expected region A taken from the first replica" % (g2,))
-                # the temporary must not be a (possible) view of s1
-                tmp_alias = [e for e in p.effects if e.kind == "write"]
-                # inspect local `_s`-like temporaries: any tensor created in swap that may alias S1
-                maybe = [o for o in p.interp.all_tobjs if getattr(o, "maybe_view", False)]
-                used_as_value = [c for c in p.effects if c.kind == "write"]
-                bad = False
-                for o in maybe:
-                    # a maybe-view that is later stored into s2 makes the result depend on the kind of A
-                    if any(o in x.may_alias or x is o for x in [o]):
-                        bad = True
                 if rname == "unknown-kind":
-                    # under an index of unknown kind (int -> view, list -> copy) the exchange is only correct if the
-                    # temporary is an explicit copy
-                    src = _swap_temp_is_copy(prog, swapf)
-                    ck.check(src, "C09.R2", inst + ":temporary is a copy", swapf.site(),
-                             "the temporary that holds region A is not an explicit copy: for an integer or slice region it is a view and the exchange is lost")
+                    # Under an index of unknown kind (int / slice -> view, list / array / tensor -> copy) the exchange is only
+                    # correct if what is stored into the second replica cannot share storage with the first replica, whose
+                    # region was overwritten in between.  Decided on the stored value's storage identity, not on spelling.
+                    st2 = [(o, v, w) for o, v, w in p.interp.stores if o is s2.obj]
+                    ck.check(len(st2) >= 1, "C09.R2", inst + ":second replica written", swapf.site(), "nothing is stored into the second replica")
+                    for o, v, w in st2:
+                        shared = isinstance(v, VTens) and (v.obj is s1.obj or (getattr(v.obj, "maybe_view", False) and s1.obj in v.obj.roots()) or s1.obj in getattr(v.obj, "may_alias", ()))
+                        ck.check(not shared, "C09.R2", inst + ":value stored into the second replica owns its storage", w,
+                                 "the value written into the second replica may be a view of the first replica (for an integer or slice region it is one): the first replica's region was already overwritten, so the exchange is lost")
     # ------------------------------------------------------------------ R1 / R3 SWAP.apply
     asite = prog.method("SWAP", "apply").site()
     for cls in api.STATES:
@@ -165,27 +159,3 @@ def run(ck):
         "x[:, A] is a view for int/slice A and a copy for list/array/tensor A (torch indexing semantics)",
         "that the average equals Tr rho_A^2 (and the entropy inequalities) is not decided",
     ]
-
-
-def _swap_temp_is_copy(prog, swapf):
-    """The value stored back into the second replica must come from an explicit copy (clone / copy /
-    detach().clone()) of the first replica's region."""
-    import ast
-
-    body = swapf.node.body
-    temps = {}
-    for st in body:
-        if isinstance(st, ast.Assign) and len(st.targets) == 1 and isinstance(st.targets[0], ast.Name):
-            temps[st.targets[0].id] = st.value
-    for st in body:
-        if isinstance(st, ast.Assign) and isinstance(st.targets[0], ast.Subscript):
-            v = st.value
-            if isinstance(v, ast.Name) and v.id in temps:
-                src = temps[v.id]
-                txt = ast.unparse(src)
-                if isinstance(src, ast.Call) and isinstance(src.func, ast.Attribute) and src.func.attr in ("clone", "copy"):
-                    return True
-                if isinstance(src, ast.Call) and ast.unparse(src.func) in ("torch.clone", "copy.deepcopy", "copy.copy", "torch.tensor"):
-                    return True
-                return False
-    return None
